@@ -12,6 +12,7 @@ import (
 	"context"
 	"errors"
 	"io/fs"
+	"math"
 	"strings"
 	"testing"
 	"testing/fstest"
@@ -600,5 +601,77 @@ func TestFinding66_CyclicDataIsPrintable(t *testing.T) {
 				t.Errorf("%s: got %q err=%v", src, out, err)
 			}
 		}
+	}
+}
+
+// rows 67, 68, 72-76 — v-show last (C03.R8), <noscript> as markup (C02.R11), the chain consumed as a whole
+// (C03.R12), the empty v-if (C03.R13), negative zero (C03.R14), === in literals (C13.R21), keyword literals (C13.R22)
+func TestFinding67to76_ThirdBatch(t *testing.T) {
+	data := map[string]any{"s": false, "a": false, "b": true, "t": true, "xs": []int{1, 2}, "nz": math.Copysign(0, -1), "str": "a===b"}
+	for src, want := range map[string]string{
+		`<p v-show="s" :style="{display: 'block'}">a</p>`:                                                  `<pstyle="display:none;">a</p>`,
+		`<div><noscript><img src="a.png"></noscript></div>`:                                                `<div><noscript><imgsrc="a.png"></img></noscript></div>`,
+		`<p v-if="a">A</p><p v-else-if="b">B</p><p v-else-if="t" v-for="x in xs">{{x}}</p><p v-else>E</p>`: `<p>B</p>`,
+		`<p v-if="">A</p><p v-else>B</p>`:                                                                  `<p>B</p>`,
+		`<p v-if="nz">1</p><p v-else>0</p>`:                                                                `<p>0</p>`,
+		`<p>{{ 'a===b' }}</p><p v-if="str == 'a===b'">y</p>`:                                               `<p>a===b</p><p>y</p>`,
+		`<p>[{{ true }}][{{ true | type }}]</p><input :disabled="true">`:                                   `<p>[true][bool]</p><inputdisabled="true"></input>`,
+	} {
+		out, err := renderFS(t, map[string]string{"p.vuego": src}, "p.vuego", data)
+		if got := strings.Join(strings.Fields(out), ""); err != nil || got != want {
+			t.Errorf("%s: got %q err=%v, want %q", src, got, err, want)
+		}
+	}
+}
+
+// row 71 — C18.R9
+func TestFinding71_OverlayReadDirWithoutLayers(t *testing.T) {
+	o := vuego.NewOverlayFS(nil, nil)
+	if _, err := o.ReadDir("no/such/dir"); !errors.Is(err, fs.ErrNotExist) {
+		t.Fatalf("ReadDir of a path in no layer: err=%v, want not-exist", err)
+	}
+	if ents, err := o.ReadDir("."); err != nil || len(ents) != 0 {
+		t.Fatalf("the root of an overlay without layers is an empty directory: %v %v", ents, err)
+	}
+}
+
+// rows 77-82 — directive values are template text (C01.R10), quoted object keys (C14.R14), v-show through the
+// shared condition evaluation (C03.R15), the LESS compiler under recover (C11.R10), string() (C11.R13),
+// Pop and the map pool (C17.R16)
+func TestFinding77to82_FourthBatch(t *testing.T) {
+	m := map[string]any{"name": "x"}
+	m["self"] = m
+	data := map[string]any{"code": "secret == 'x'", "secret": "x", "wide": true, "m": m}
+	for src, want := range map[string]string{
+		`<p v-show="{{ code }}">a</p>`:                         `<pstyle="display:none;">a</p>`,
+		`<div :class="{'md:flex': wide, plain: wide}">t</div>`: `<divclass="md:flexplain">t</div>`,
+		`<div :class='{"active": wide}'>t</div>`:               `<divclass="active">t</div>`,
+		`<p v-show="!missing">a</p><p v-if="!missing">b</p>`:   `<p>a</p><p>b</p>`,
+		`<p>{{ string(m) + "a" }}</p>`:                         `<p>map[string]interface{}(cyclic)a</p>`,
+	} {
+		out, err := renderFS(t, map[string]string{"p.vuego": src}, "p.vuego", data)
+		if got := strings.Join(strings.Fields(out), ""); err != nil || got != want {
+			t.Errorf("%s: got %q err=%v, want %q", src, got, err, want)
+		}
+	}
+	// a LESS source the compiler panics on: an error, not a panic
+	if _, err := renderFS(t, map[string]string{"p.vuego": `<style type="text/css+less">@import "</style>`}, "p.vuego", nil, vuego.WithLessProcessor()); err == nil || strings.Contains(err.Error(), "PANIC") {
+		t.Errorf("malformed LESS: err=%v, want an ordinary error", err)
+	}
+	// the caller's map stays the caller's
+	own := map[string]any{"x": 1}
+	s := vuego.NewStack(map[string]any{"x": 0})
+	s.Push(own)
+	s.Pop()
+	if len(own) != 1 {
+		t.Errorf("Pop emptied a map the caller had pushed: %v", own)
+	}
+	s.Push(nil)
+	s.Set("y", 2)
+	s.Push(own)
+	s.Set("z", 3)
+	s.Pop()
+	if v, ok := s.Lookup("y"); !ok || v != 2 {
+		t.Errorf("after pushing and popping the caller's map, y = %v %v, want 2 true", v, ok)
 	}
 }
